@@ -62,7 +62,8 @@ def scaled_off_curve(g, P, s_):
 def rep_lams(g, rng):
     """scalings lambda for Jacobian representatives (lambda^2 x, lambda^3 y, lambda): z = 1, -1, 2, limb-structured, random"""
     K = g.K
-    out = [("z=1", None), ("z=-1", K.neg(K.one)), ("z=2", K.from_int(2)), ("z=2^64", K.from_int(1 << 64)), ("z=random", g.lam(rng))]
+    out = [("z=1", None), ("z=-1", K.neg(K.one)), ("z=2", K.from_int(2)), ("z=2^64", K.from_int(1 << 64)), ("z=random", g.lam(rng)),
+           ("z=R^-1 (raw Montgomery limbs 1)", K.from_int(pow(1 << 384, -1, Q)))]
     if K is F2:
         out += [("z=u", (0, 1)), ("z=t*u", (0, rng.randrange(1, Q))), ("z=real", (rng.randrange(1, Q), 0)), ("z=c+c*u", (5, 5))]
     return out
@@ -103,6 +104,9 @@ def limb_specials(rng, n=3):
         out.append((rng.randrange(Q) >> 64) << 64)          # low limb zero
         out.append((rng.randrange(Q) >> 128) << 128)        # two low limbs zero
         out.append(rng.randrange(1 << 64))                  # only the low limb
+    # values whose MONTGOMERY representation is structured (raw limbs 1, 2, 2^64-1, 2^64, a single top limb)
+    Rinv = pow(1 << 384, -1, Q)
+    out += [(r_ * Rinv) % Q for r_ in (1, 2, (1 << 64) - 1, 1 << 64, 1 << 320)]
     return [v % Q for v in out]
 
 
@@ -1042,7 +1046,9 @@ def check_C07(ck):
 def _fq_specials(p, rng, n_rand=4):
     W = 1 << (384 if p == Q else 256)
     Rm = W % p
-    vals = [0, 1, 2, 3, p - 1, p - 2, (p - 1) // 2, (p + 1) // 2, Rm, (Rm - 1) % p, Rm * Rm % p]
+    Ri = pow(W, -1, p)
+    vals = [0, 1, 2, 3, p - 1, p - 2, (p - 1) // 2, (p + 1) // 2, Rm, (Rm - 1) % p, Rm * Rm % p,
+            Ri, 2 * Ri % p, ((1 << 64) - 1) * Ri % p, (1 << 64) * Ri % p, (p - 1) * Ri % p, Ri * Ri % p]     # raw Montgomery limbs 1, 2, 2^64-1, 2^64, p-1
     nb = p.bit_length()
     for k in range(63, nb, 64):
         for d in (-1, 0, 1):
